@@ -63,7 +63,9 @@ def cases(draw, nums=("frac",), mode=None):
         m = draw(st.integers(0, max(n - 1, 0)))
     Z = draw(gen.ctrlpoints(max(m, 1), dim))[:m]
     Q = draw(gen.ctrlpoints(n, dim))
-    return {"U": U, "p": p, "w": w, "nodes": nodes, "Z": Z, "Q": Q, "mode": mode, "dim": dim,
+    if draw(st.booleans()):
+        nodes = draw(st.permutations(nodes))  # the statement does not ask for sorted nodes
+    return {"U": U, "p": p, "w": w, "nodes": list(nodes), "Z": Z, "Q": Q, "mode": mode, "dim": dim,
             "num": draw(st.sampled_from(list(nums)))}
 
 
@@ -87,7 +89,8 @@ def check(case, out):
     kind = ("rational" if w is not None else "polynomial") + (";exact" if exact else ";float")
     bk = oracle.breaks(U)
     rep = any(oracle.mult(U, z) >= 2 for z in bk[1:-1])
-    out.cls(kind, "mode=" + mode, "repeated-knot" if rep else "simple-or-bezier", "vector" if dim else "scalar")
+    out.cls(kind, "mode=" + mode, "repeated-knot" if rep else "simple-or-bezier", "vector" if dim else "scalar",
+            "nodes-sorted" if list(case["nodes"]) == sorted(case["nodes"]) else "nodes-unsorted")
     curve = lib.Curve(Ulib)
     if wl is not None:
         curve.weights = wl
@@ -119,6 +122,12 @@ def check(case, out):
         nodes = [oracle.frac(z) for z in lnodes]
         call_nodes = lnodes
     m = len(nodes)
+    if not exact:
+        srt = sorted(nodes)
+        gaps = [b - a for a, b in zip(srt[:-1], srt[1:])]
+        if gaps and min(gaps) < (U[-1] - U[0]) / 100:
+            out.exclude("float-profile:clustered-nodes(ill-conditioned)")
+            return
     B = [oracle.basis_row(U, p, p, z, w) for z in nodes]
     if m < n or oracle.rank(B) < n:
         out.exclude("rank-deficient-nodes")
